@@ -12,7 +12,7 @@ from matched_markets.methodology.tbr_iroas import TBRiROAS
 ID = 'C07'
 LEVEL = 'exploration'
 NSIMS = 2000
-RULE = ('Engine A: lattice of experiment frames with cost columns: 4 shapes x n_pre in {4,6,10} x n_test in {1,3} x cooldown '
+RULE = ('Engine A: lattice of experiment frames with cost columns: 4 shapes x n_pre in {3 (one degree of freedom),4,6,10} x n_test in {1,3} x cooldown '
         'in {0,2} x use_cooldown x scenario in {fixed (pre-period and control test-period cost exactly 0), variable (costs O(10), '
         'strong cost effect), control-cost-only-in-cooldown, pre-period-cost (both groups), treatment-pre-cost-only, control-test-cost-only, a stray 1e-6 booking in the pre-period / in the test period of control next to a 50 000-a-day campaign, low-spend (negative predicted spend)} x tails x level in {0.5,0.8,0.9,0.95} x '
         'threshold in {0, 1.5} x random_state in {0,7} (quick: sub-grid) x object state in {fresh, already fitted to ANOTHER experiment (other cost scenario, other lengths) and asked for all reports}. Oracle: fixed: estimate/lower/upper = response-effect '
@@ -83,7 +83,7 @@ def cost_series(scen, x, npre, ntest, ncool, seed):
 def cases(tier, seed):
     out = []
     thorough = tier == 'thorough'
-    for sh, npre, ntest, ncool in itertools.product(frames.SHAPES[:4] if not thorough else frames.SHAPES, (4, 6, 10), (1, 3), (0, 2)):
+    for sh, npre, ntest, ncool in itertools.product(frames.SHAPES[:4] if not thorough else frames.SHAPES, (3, 4, 6, 10), (1, 3), (0, 2)):
         for scen in ('fixed', 'variable', 'control-cost-in-cooldown', 'pre-period-cost', 'treatment-pre-cost-only', 'control-test-cost-only',
                      'stray-pre-cost', 'stray-control-test-cost', 'low-spend'):
             for use_cd in ((True, False) if ncool else (False,)):
